@@ -131,6 +131,9 @@ def engine_refuses(r, F):
     c = cl[0]
     st = [b for b in c.calls_to(r"atomic::Atomic::<bool>::store$") if backslice(c, b.term.args[0], "prov").has_field("active")]
     w = c.calls_to(r"BlockEngine::<K, V, P>::wait$")
+    aw = [b.idx for b in c.calls_to(r"future::IntoFuture::into_future$") if w and any(bb == w[0].idx for bb, _ in backslice(c, b.term.args[0], "prov").calls)]
+    r.require(bool(aw) and c.must_pass(0, aw) and c.must_pass(0, [x.idx for x in st]), c, "close: deactivate and wait on every path", "active.store(false) and wait().await are unconditional",
+              "BlockEngine::close can return without deactivating the engine / awaiting wait(): close() then acknowledges before queued entries are written", ln=c.lo)
     r.require(len(st) == 1 and st[0].term.args[1].const_val() == 0 and bool(w) and c.dominates(st[0].idx, w[0].idx), c, "close: active=false then wait",
               "the engine stops accepting work, then waits for flushers and reclaimers", "BlockEngine::close does not deactivate the engine before waiting", ln=c.lo)
 
@@ -277,7 +280,7 @@ def drop_closes(r, F):
 def run(chk, F):
     chk.run_rule("C15.close-order", "closed flag first (idempotent), flush iff flush_on_close and completed before the store is closed, result propagated", 6, close_order, F)
     chk.run_rule("C15.flush-all", "flush evicts every shard to zero and hands every record to the pipe; the pipe enqueues all but in-memory-only pieces after draining", 5, flush_all, F)
-    chk.run_rule("C15.engine-refuses", "enqueue/delete test `active` before allocating or submitting; close deactivates then waits", 3, engine_refuses, F)
+    chk.run_rule("C15.engine-refuses", "enqueue/delete test `active` before allocating or submitting; close deactivates then waits", 4, engine_refuses, F)
     chk.run_rule("C15.queue-gate", "the submit-queue admission counter is released for every received entry by the amount added for it; the gate drops only above the threshold", 6, queue_gate, F)
     chk.run_rule("C15.engine-waits", "BlockEngine::wait awaits a Wait round-trip through every flusher and the reclaimers; waiters are answered only on io completion", 4, engine_waits, F)
     chk.run_rule("C15.drop-closes", "Drop and close() run close_inner with the cache's own flag and tiers", 2, drop_closes, F)
